@@ -30,7 +30,7 @@ RULE = (
 ASSUMPTIONS = c02.ASSUMPTIONS + ["SSA predicate is textual (regex over the generated source layout)"]
 BUDGET = {
     "quick": {"shards": 16, "examples": 20, "wall": 120, "cpp_examples": 3},
-    "thorough": {"shards": 16, "examples": 380, "wall": 1200, "cpp_examples": 50},
+    "thorough": {"shards": 16, "examples": 3800, "wall": 900, "cpp_examples": 500},
 }
 
 LIBM = {"pow", "sin", "cos", "tan", "tanh", "atan", "exp", "sqrt", "log", "cbrt", "fabs", "sinh", "cosh", "asin",
